@@ -15,7 +15,7 @@ T = {
  "C05": ("model_checking", "fragment building API: full samples, metadata-only samples with separately written data (lazy variants) and sample intervals, single- and multi-track, several fragments per segment, with/without trun optimisation, both encoders, extra boxes between fragments: encoding and decoding together with the init returns per track and in order the same bytes, size, duration, flags, composition offset and decode time; symbolic metadata and payload, bounded sample counts", "z3"),
  "C06": ("model_checking", "encrypt (cenc/cbcs, AVC and AAC, IV 8/16, NAL sizes around the thresholds, extra boxes in traf) then decrypt restores every sample byte and all metadata; AES-128 is an uninterpreted permutation with D(E(x))=x, so the result holds for every key; init and media decoded jointly and separately", "cvc5"),
  "C07": ("model_checking", "the encrypted form is well-formed: sub-sample entries partition each sample, NAL length/header and non-video NAL units stay clear, protected ranges are whole blocks, per-sample IVs advance by the blocks used, protected bytes equal a reference AES-CTR / CBC run (AES uninterpreted), saio/saiz describe senc; plus the clear/protected ranges for every NAL size 1..40 and around 96+16 / 65535", "cvc5"),
- "C08": ("model_checking", "lazy-mdat decode of a progressive file gives the same tree, sizes and positions as full decode; ReadData/CopyData/CopySampleData over symbolic byte and sample ranges (ranges ending at the last byte, spanning chunks, small work buffer, readers returning short and zero-length reads) return the same bytes in both modes; a lazily decoded mdat encodes exactly its header", "z3"),
+ "C08": ("model_checking", "lazy-mdat decode of a progressive file gives the same tree, sizes and positions as full decode; ReadData/CopyData/CopySampleData over symbolic byte and sample ranges (ranges ending at the last byte, spanning chunks, work buffers of 0/1/2/5 bytes) return the same bytes in both modes; a lazily decoded mdat encodes exactly its header", "z3"),
  "C09": ("model_checking", "every sample-table query (stts/ctts/stsc/stsz/stco/co64/stss: decode time, duration, sample at time, composition offset, sizes, sync, chunk of sample, chunk contents/offsets, containing chunks, byte ranges, per-interval metadata) equals the naive per-sample expansion for every sample number and interval; symbolic table entries, bounded entry counts", "z3"),
  "C10": ("model_checking", "mp4ff-crop pipeline on progressive files (1-2 tracks, chunk layouts, sync tables, ctts): each output track is exactly the first k samples of the input track (bytes, durations, composition offsets, sync flags), k by the reference track's first sync sample at or after the requested duration, chunk offsets inside the new mdat, header durations not above the originals; symbolic crop time and payload", "z3"),
  "C11": ("model_checking", "segmenter (single, multiplexed, lazy), resegmenter, combine-segs and Fragmentify conserve every sample of every track in order with bytes, durations, decode times, composition offsets and sync flags; layouts incl. multi-run stts", "z3"),
